@@ -37,6 +37,7 @@ class JointDegreeFunction(JointDegree):
         ks = [
             list(range(kmin, kmax + 1)) for kmin, kmax in self._low_high_degree_bounds
         ]
+        self._jdd = {}
         # iterate all joint degrees and evaluate the joint degree
         for jd in list(product(*ks)):
             self._jdd[jd] = self._fp(jd)
